@@ -17,7 +17,8 @@ Weights == {"", "0.5", "Inf", "-Inf", "+Inf", "NaN", "1e-320", "5e-324", "1e308"
             "@digits400", "0x1p-2", "1_0", "1e-400", "infinity"}
 Tagss   == {"", "a", ",", "@long", "a,,b"}
 Optss   == {"", "strip=/x", "redirect=abc", "redirect=999", "redirect=301", "allow=ip:999.1.1.1/33", "=", "host=",
-            "tlsskipverify=true proto=https host=h", "auth=none", "@long"}
+            "tlsskipverify=true proto=https host=h", "auth=none", "@long",
+            "allow=ip:10.0.0.0/8 deny=ip:10.1.0.0/16", "deny=ip:bogus allow=ip:10.0.0.0/8"}
 
 VARIABLES script, phase
 vars == <<script, phase>>
